@@ -47,14 +47,17 @@ SENSITIVITY = {"UncappedNonEmptyRepeat": "Inv_Bounded", "ExtractAllIgnoresFilter
                "UncappedSpaceCount": "Inv_Bounded", "DenseGridFromSparseCells": "Inv_Bounded",
                "XrefPrevLoop": "Inv_Bounded", "FlipCompare": "Inv_Boundary",
                "GuardAfterLoad": "Inv_NoLoadBeforeGuard", "DecompressBeforeCheck": "Inv_SkippedNeverDecompressed",
-               "NoEmptyCap": "Inv_Bounded", "PlainXmlParser": "Inv_EntitiesNotExpanded"}
+               "NoEmptyCap": "Inv_Bounded", "PlainXmlParser": "Inv_EntitiesNotExpanded",
+               "GuardOnLinkSize": "Inv_Boundary", "FollowLinksUnchecked": "Inv_SkippedNeverDecompressed",
+               "ReadByNameLast": "Inv_SkippedNeverDecompressed"}
 INVS = ["Inv_NoLoadBeforeGuard", "Inv_Boundary", "Inv_SkippedNeverDecompressed", "Inv_MemberBoundary",
         "Inv_Bounded", "Inv_EntitiesNotExpanded", "Inv_Progress"]
 MARKERS = {"laughs": ["hahaha"], "quadratic": ["qqqqqqqqqq"], "parameter": ["zzzzzzzzzz"], "external": []}
 MAX_HOSTILE = 256 * 1024      # encoded size of any hostile file (most are < 8 KiB; OLE fixtures up to 192 KiB)
 
 
-PART_A_DEVS = {"ExtractAllIgnoresFilter", "FlipCompare", "GuardAfterLoad", "DecompressBeforeCheck"}
+PART_A_DEVS = {"ExtractAllIgnoresFilter", "FlipCompare", "GuardAfterLoad", "DecompressBeforeCheck", "GuardOnLinkSize",
+               "FollowLinksUnchecked", "ReadByNameLast"}
 
 
 def _gen_cfg(devs, thorough, invs, parts=("a", "b")):
@@ -75,54 +78,25 @@ def _dump_states(path):
 
 def _key(s):
     """Identity of a scenario (hashable, JSON-able)."""
-    return json.dumps({"k": s["k"], "kind": s["kind"], "max": s["max"], "size": s["size"], "lim": s["lim"],
-                       "lim2": s["lim2"], "members": [[m["size"], m["folder"]] for m in s["members"]],
+    return json.dumps({"k": s["k"], "kind": s["kind"], "max": s["max"], "size": s["size"], "via": s["via"], "lim": s["lim"],
+                       "lim2": s["lim2"],
+                       "members": [[m["size"], m["folder"], m["name"], m["type"], m["target"]] for m in s["members"]],
                        "c": s["c"], "mag": s["mag"], "pos": s["pos"]}, sort_keys=True)
 
 
-def _hdr(s, skib=None, valid=False):
-    return {"k": s["k"], "kind": s["kind"], "max": s["max"], "size": s["size"], "lim": s["lim"], "lim2": s["lim2"],
-            "members": [{"size": m["size"], "folder": m["folder"]} for m in s["members"]],
+def _hdr(s, skib=None, valid=False, lsize=None):
+    return {"k": s["k"], "kind": s["kind"], "max": s["max"], "size": s["size"], "via": s["via"],
+            "lsize": s["lsize"] if lsize is None else lsize, "lim": s["lim"], "lim2": s["lim2"],
+            "members": [{"size": m["size"], "folder": m["folder"], "name": m["name"], "type": m["type"],
+                         "target": m["target"]} for m in s["members"]],
             "c": s["c"], "mag": s["mag"], "pos": s["pos"], "skib": s["skib"] if skib is None else skib,
             "valid": bool(valid)}
 
 
 # ------------------------------------------------------------------------------------ concretisers, part (a)
-class _Zeros(io.RawIOBase):
-    def __init__(self, n):
-        self.left = n
-
-    def readable(self):
-        return True
-
-    def readinto(self, b):
-        n = min(len(b), self.left)
-        b[:n] = bytes(n)
-        self.left -= n
-        return n
-
-
-def _zip_members(sizes) -> bytes:
-    buf = io.BytesIO()
-    with zipfile.ZipFile(buf, "w", zipfile.ZIP_DEFLATED, compresslevel=6) as z:
-        for i, n in enumerate(sizes, start=1):
-            z.writestr(f"m{i}.txt", bytes(n))
-    return buf.getvalue()
-
-
-def _tar_members(sizes, comp) -> bytes:
-    buf = io.BytesIO()
-    with tarfile.open(fileobj=buf, mode="w:" + comp) as tf:
-        for i, n in enumerate(sizes, start=1):
-            ti = tarfile.TarInfo(f"m{i}.txt")
-            ti.size = n
-            tf.addfile(ti, io.BufferedReader(_Zeros(n)))
-    return buf.getvalue()
-
-
 def _build_limit_scenarios(ctx, scns, wd: Path, rng):
     """-> list of worker scenario records (with 'id' = index into scns)."""
-    from .. import c12_sevenz
+    from .. import c12_archives, c12_sevenz
     out = []
     base7z = c12_sevenz.write_7z([("a.txt", b"hello from a padded archive\n")], method="lzma2")
     cache = {}
@@ -135,36 +109,44 @@ def _build_limit_scenarios(ctx, scns, wd: Path, rng):
                     f.truncate(s["size"])                  # sparse: no data blocks
                 else:
                     f.write(b"a" * s["size"])
-            out.append({"sidx": idx, "scn": "read_file", "path": str(p), "max": s["max"], "route": "txt", "stub": big})
+            lsize = 0
+            for hop in range(s["via"]):                    # a symbolic link to the file / a link to that link
+                lp = wd / f"rf_{idx}_link{hop + 1}.txt"
+                os.symlink(str(p) if rng.random() < 0.5 else p.name, lp)      # absolute or relative target
+                p = lp
+                lsize = os.lstat(lp).st_size
+            out.append({"sidx": idx, "scn": "read_file", "path": str(p), "max": s["max"], "route": "txt", "stub": big,
+                        "lsize": lsize})
             if s["max"] == 100 * MiB:                      # the documented default, not passed at all
-                out.append({"sidx": idx, "scn": "read_file", "path": str(p), "max": None, "route": "txt", "stub": big})
+                out.append({"sidx": idx, "scn": "read_file", "path": str(p), "max": None, "route": "txt", "stub": big,
+                            "lsize": lsize})
         elif s["k"] == "sevenz_size":
             for valid in (True, False):                    # a valid padded archive / signature + zeros
                 out.append({"sidx": idx, "scn": "sevenz_size", "size": s["size"], "valid": valid,
                             "archive": base64.b64encode(base7z).decode()})
         elif s["k"] == "members":
-            sizes = [m["size"] for m in s["members"]]
+            mem = [{"size": m["size"], "name": m["name"], "type": m["type"], "target": m["target"]} for m in s["members"]]
+            sig = tuple((m["size"], m["name"], m["type"], m["target"]) for m in mem)
             small = s["lim"] <= 65536
             if s["kind"] == "zip":
-                ext, ck = "zip", ("zip", tuple(sizes))
-                data = cache.get(ck) or _zip_members(sizes)
+                ext, ck = "zip", ("zip", sig)
+                data = cache.get(ck) or c12_archives.build_zip(mem)
             elif s["kind"] == "tar":
                 comp = rng.choice(["", "gz", "xz"]) if small else rng.choice(["gz", "xz"])
-                ext, ck = ("tar" if not comp else "tar." + comp), ("tar", comp, tuple(sizes))
-                data = cache.get(ck) or _tar_members(sizes, comp)
+                ext, ck = ("tar" if not comp else "tar." + comp), ("tar", comp, sig)
+                data = cache.get(ck) or c12_archives.build_tar(mem, comp)
             else:
                 method = rng.choice(["copy", "lzma", "lzma2"]) if small else rng.choice(["lzma", "lzma2"])
-                ext, ck = "7z", ("7z", method, tuple(sizes))
-                data = cache.get(ck) or c12_sevenz.write_7z([(f"m{i}.txt", bytes(n)) for i, n in
-                                                             enumerate(sizes, start=1)], method=method)
+                ext, ck = "7z", ("7z", method, sig)
+                data = cache.get(ck) or c12_archives.build_7z(mem, method)
             cache[ck] = data
             f = wd / f"arch_{idx}.{ext}"
             f.write_bytes(data)
             # the default limit is used unconfigured; any other limit goes through the public configuration call
             configure = 0 if s["lim"] == 10 * MiB else s["lim"]
             out.append({"sidx": idx, "scn": "members", "kind": s["kind"], "ext": ext, "archive_file": str(f),
-                        "configure": configure, "members": [{"name": f"m{i}.txt", "size": n}
-                                                            for i, n in enumerate(sizes, start=1)]})
+                        "configure": configure,
+                        "members": [{"name": c12_archives.member_name(m), "size": m["size"]} for m in mem]})
         else:
             raise MachineryError(f"unknown scenario kind {s['k']}")
     for n, w in enumerate(out):
@@ -333,15 +315,11 @@ def run(ctx):
         consts_seen = r.get("consts") or consts_seen
         evs = []
         for e in r["ev"]:
-            e = dict(e)
-            if "m" in e:                                   # member name -> index
-                nm = e["m"].rsplit("/", 1)[-1]
-                e["m"] = int(nm[1:].split(".")[0]) if nm.startswith("m") and nm[1:].split(".")[0].isdigit() else 0
-            evs.append(e)
+            evs.append(dict(e))                            # entries are identified by index in the worker
         if s["k"] == "members" and w["configure"] and r.get("eff") != s["lim"]:
             raise MachineryError(f"could not configure the per-member limit {s['lim']} (effective {r.get('eff')})")
         # (unconfigured scenarios run with whatever default the code has; the trace decides)
-        traces.append({"id": f"a:{r['id']}", "hdr": _hdr(s, valid=w.get("valid", False)), "ev": evs})
+        traces.append({"id": f"a:{r['id']}", "hdr": _hdr(s, valid=w.get("valid", False), lsize=w.get("lsize")), "ev": evs})
         meta.append({"part": "a", "key": skey, "gov": ref_final[skey]["gov"], "w": w, "raw": r})
     if consts_seen:
         want = {"MAX_MEMORY_SIZE": 10 * MiB, "MAX_ARCHIVE_FILE_SIZE": 50 * MiB, "MAX_7Z_FILE_SIZE": 100 * MiB}
@@ -432,13 +410,16 @@ def run(ctx):
 
 def _describe(s, t, m):
     if s["k"] == "read_file":
-        return (f"read_file(max_file_size={s['max']}) on a file of {s['size']} bytes: events "
+        via = {0: "", 1: " given as a symbolic link", 2: " given as a symbolic link to a symbolic link"}[s["via"]]
+        return (f"read_file(max_file_size={s['max']}) on a file of {s['size']} bytes{via}: events "
                 f"{[e['a'] + (':' + str(e.get('outcome')) if e['a'] == 'End' else '') for e in t['ev']]}")
     if s["k"] == "sevenz_size":
         return (f"read_archive on a 7z buffer of {s['size']} bytes (limit {100 * MiB}): events "
                 f"{[e['a'] + (':' + str(e.get('outcome')) if e['a'] == 'End' else '') for e in t['ev']]}")
     if s["k"] == "members":
-        return (f"{m['w']['ext']} archive, per-member limit {s['lim']}, member sizes {[x['size'] for x in s['members']]}: events "
+        ents = [f"#{i} n{x['name']} {x['type']}" + (f"->#{x['target']}" if x['type'] in ('hard', 'sym') else f" {x['size']}B")
+                for i, x in enumerate(s['members'], start=1)]
+        return (f"{m['w']['ext']} archive, per-member limit {s['lim']}, entries {ents}: events "
                 f"{[(e['a'], e.get('m', e.get('f', e.get('outcome')))) for e in t['ev']]}")
     e = t["ev"][0]
     return (f"amplifier {s['c']} magnitude {s['mag']} position {s['pos']}: file of {m['w']['len']} bytes "
@@ -457,11 +438,12 @@ def _corrupt_demo():
         thorough = False
     with Scratch("C12demo") as scratch:
         C.scratch = scratch
-        scn = lambda **kw: {"k": "", "kind": "", "max": 0, "size": 0, "lim": 0, "lim2": 0, "members": (), "c": "",
-                            "mag": 0, "pos": "", "skib": 0, **kw}
+        scn = lambda **kw: {"k": "", "kind": "", "max": 0, "size": 0, "via": 0, "lsize": 0, "lim": 0, "lim2": 0,
+                            "members": (), "c": "", "mag": 0, "pos": "", "skib": 0, **kw}
+        mem = lambda size, i: {"size": size, "folder": i, "name": i, "type": "reg", "target": 0}
         scns = [scn(k="read_file", max=4096, size=4096), scn(k="read_file", max=4096, size=4097),
                 scn(k="members", kind="zip", lim=4096, lim2=50 * MiB,
-                    members=({"size": 4096, "folder": 1}, {"size": 4097, "folder": 2}))]
+                    members=(mem(4096, 1), mem(4097, 2)))]
         wd = scratch / "f"
         wd.mkdir()
         wscn = _build_limit_scenarios(C, scns, wd, random.Random(0))
@@ -469,12 +451,7 @@ def _corrupt_demo():
         traces = []
         for r in sorted(res, key=lambda r: r["id"]):
             evs = []
-            for e in r["ev"]:
-                e = dict(e)
-                if "m" in e:
-                    e["m"] = int(e["m"][1:].split(".")[0])
-                evs.append(e)
-            traces.append({"id": str(r["id"]), "hdr": _hdr(scns[wscn[r["id"]]["sidx"]]), "ev": evs})
+            traces.append({"id": str(r["id"]), "hdr": _hdr(scns[wscn[r["id"]]["sidx"]]), "ev": [dict(e) for e in r["ev"]]})
         from .. import c12_hostile
         b = c12_hostile.build("ods_cell_repeat_empty", 10 ** 6, "first", random.Random(0))
         f = scratch / "h.ods"
